@@ -3,7 +3,14 @@ from fractions import Fraction
 from tools import vlib
 from checks.common import frac
 
-THEOREMS = []
+THEOREMS = [
+    "Rink.Spec.evalQuery_convert",
+    "Rink.Spec.convert_ok_iff",
+    "Rink.Spec.convert_exact",
+    "Rink.Spec.convert_back",
+    "Rink.Spec.convert_mismatch",
+    "Rink.Spec.convert_zero_target",
+]
 
 def judge(text, impl, aux):
     if not aux or aux.get("v") is None or aux.get("t") is None:
